@@ -778,11 +778,86 @@ def permuted_sessions(ctx):
                             return
 
 
+def resumed_sessions(ctx):
+    """several sessions with the SAME setup on one output file, the path given in different spellings (with / without the .tsv
+    extension, str / Path): every value recorded by any session must be read back by the loader from <path>.tsv"""
+    from panoptica import Panoptica_Evaluator, InputType
+    from panoptica.metrics import Metric
+    from panoptica.panoptica_aggregator import Panoptica_Aggregator
+    from panoptica.panoptica_statistics import Panoptica_Statistic
+    from panoptica.utils.segmentation_class import SegmentationClassGroups
+    from panoptica.utils.label_group import LabelGroup
+    rng = ctx.rng
+    for trial in range(ctx.scale(6, 60)):
+        names = rng.sample(["alpha", "b-eta", "gamma g", "d_elta"], rng.randint(1, 3))
+        labs = {n: [i + 1] for i, n in enumerate(names)}
+        log_times = rng.random() < 0.3
+
+        def mk():
+            return Panoptica_Evaluator(expected_input=InputType.MATCHED_INSTANCE, instance_metrics=[Metric.IOU, Metric.DSC], global_metrics=[Metric.DSC],
+                                       segmentation_class_groups=SegmentationClassGroups({n: LabelGroup(labs[n]) for n in names}))
+
+        def arr():
+            ref = np.zeros((3, 8), np.uint8); pred = np.zeros((3, 8), np.uint8)
+            for n in names:
+                l = labs[n][0]
+                w = rng.randint(1, 2)
+                ref[l - 1, 0:2 * w] = l
+                if rng.random() < 0.7:
+                    pred[l - 1, 0:w + rng.randint(0, w)] = l
+            return pred, ref
+        spelling = rng.choice(["ext", "noext", "noext", "mixed"])
+        as_str = rng.random() < 0.5
+        with tempfile.TemporaryDirectory() as d:
+            base = Path(d) / rng.choice(["out", "results_run1", "o"])
+            final = Path(str(base) + ".tsv")
+            n_sessions = rng.randint(2, 3)
+            expect, problem = {}, None
+            k = 0
+            for si in range(n_sessions):
+                given = final if spelling == "ext" or (spelling == "mixed" and si % 2 == 0) else base
+                ev = quiet(mk)
+                try:
+                    agg = quiet(Panoptica_Aggregator, ev, str(given) if as_str else given, log_times=log_times)
+                    for _ in range(rng.randint(1, 2)):
+                        k += 1
+                        p, r = arr()
+                        quiet(agg.evaluate, p.copy(), r.copy(), f"s{k}")
+                        expect[f"s{k}"] = quiet(ev.evaluate, p.copy(), r.copy())
+                    if rng.random() < 0.5:
+                        try:
+                            agg._Panoptica_Aggregator__exist_handler()
+                        except Exception:  # noqa
+                            pass
+                except Exception as e:  # noqa
+                    problem = f"session {si + 1} on {given.name!r} raised {type(e).__name__}: {str(e)[:120]}"
+                    break
+            case = {"kind": "resumed_sessions", "groups": names, "spelling": spelling, "as_str": as_str, "sessions": n_sessions, "log_times": log_times}
+            ctx.count(dict(case, trial=trial), True)
+            ctx.bump(f"resumed sessions, path spelling {spelling}")
+            if problem is None:
+                try:
+                    st = quiet(Panoptica_Statistic.from_file, str(final))
+                    for sname, res in expect.items():
+                        one = st.get_one_subject(sname)
+                        for g in names:
+                            want = res[g][0].to_dict()
+                            for m in ("tp", "fp", "fn", "num_ref_instances", "num_pred_instances", "global_bin_dsc"):
+                                if not same_value(one[g][m], want[m]):
+                                    problem = f"subject {sname!r}, group {g!r}, {m}: loaded {one[g][m]} but the result says {want[m]}"
+                except Exception as e:  # noqa
+                    problem = f"the loader fails on the file the sessions wrote: {type(e).__name__}: {str(e)[:120]} (rows: {[c[0] for c in read_cells(final)] if final.exists() else None})"
+            if problem:
+                ctx.violation("sessions resumed on one output file: " + problem, case)
+                return
+
+
 def run(ctx):
     common.serial_pool()
     rng = ctx.rng
     triples = split_checks(ctx)
     permuted_sessions(ctx)
+    resumed_sessions(ctx)
     cases = []
     cdir = common.VERIF / "corpus" / "C18"
     if cdir.exists():
@@ -823,9 +898,39 @@ def run(ctx):
     ctx.layers.append({"layer": "arbitrary and malformed tables through the loader", "cases": sum(1 for c in cases if c["kind"] == "table")})
 
 
+class _ReplayCtx:
+    """minimal stand-in for the session families (they draw their arrays from the rng): re-runs the family, prints what fails"""
+    def __init__(self, seed):
+        import random
+        self.rng, self.tier, self.found = random.Random(seed), "thorough", []
+
+    def scale(self, q, t):
+        return t
+
+    def count(self, *a, **k):
+        pass
+
+    def bump(self, *a, **k):
+        pass
+
+    def violation(self, what, rep):
+        self.found.append((what, rep))
+
+
 def replay(path):
     common.serial_pool()
     d = json.loads(open(path).read())
+    if d.get("kind") in ("resumed_sessions", "permuted_sessions"):
+        fam = resumed_sessions if d["kind"] == "resumed_sessions" else permuted_sessions
+        found = []
+        for seed in range(4):
+            c = _ReplayCtx(seed)
+            fam(c)
+            found += c.found
+        for what, rep in found[:5]:
+            print("PROPERTY FAILS ON THE IMPLEMENTATION:", what, rep)
+        print("DIFFER" if found else "agree (sessions of this family re-run with 4 seeds)")
+        return 1 if found else 0
     case = case_from_json(d["case"] if "case" in d else d)
     vio, dis, triple, _, bucket = check_case(case)
     print("case:", bucket)
